@@ -99,7 +99,7 @@ def run(ctx):
     ctx_inits = {}  # call chain (tuple) -> facts inherited at the entry of its last function
 
     def on_context(fn, env, envkey, init, chain, IN, before):
-        ctx_inits[tuple(chain)] = {logic.show(f0) for f0 in (init or ())}
+        ctx_inits.setdefault(tuple(chain), set()).update(logic.show(f0) for f0 in (init or ()))  # one chain can be walked in several contexts
         if not fn.file.startswith("/repo/"):
             return
         for bid in fn.blocks:
@@ -412,4 +412,13 @@ def justify_thrower(ctx, prog, lg, fn, n, nm, env, st):
                         return True, "position is the result of %s.find(...) and `%s != npos` holds (find returns < size())" % (canon(recv), v)
                 return False, "`%s != npos` is not established" % v
         return False, "unrecognised position expression %s" % fmt(pos)
+    if nm in ("compare", "erase", "replace", "insert", "copy"):
+        # basic_string::f(pos, ...) throws out_of_range only for pos > size(): position 0 is always valid
+        args = [a for a in n.get("args", []) if not (isinstance(a, dict) and a.get("k") == "defarg")]
+        pos = ir.unwrap(args[0]) if args else None
+        if nm == "compare" and (len(args) == 1 or (isinstance(pos, dict) and pos.get("k") == "lit" and pos.get("v") == 0)):
+            return True, "compare(%s) cannot throw (no position, or position 0 <= size())" % ("0, ..." if len(args) > 1 else "s")
+        if nm != "compare" and isinstance(pos, dict) and pos.get("k") == "lit" and pos.get("v") == 0 and nm != "insert":
+            return True, "%s(0, ...) cannot throw" % nm
+        return False, "position %s of %s() is not known to be within the string" % (fmt(pos) if pos is not None else "?", nm)
     return False, "no justification known for %s" % nm
